@@ -167,6 +167,17 @@ def run(ctx):
                     len(set(sh for sh, _ in acked)), k), case=case)
             if nbad:
                 ctx.oracle_fail("publish-success-despite-failed-testv", "publish reported success although a test vector failed (another version was met)", case=case)
+            # "no unexpected version was encountered": an answer that shows, on that server, a share of ANOTHER version which
+            # this publish is not itself writing there, must not end in success (also when the own write was applied)
+            mine = set((w.shnum, w.server.i) for w in writers)
+            errored = set((w.shnum, w.server.i) for w, a in answers if a[0] == "err")
+            for w, a in answers:
+                if a[0] == "ans":
+                    foreign = [sh for sh, cs in a[2] if sh != w.shnum and cs != OURS and (sh, w.server.i) not in mine]
+                    if foreign:
+                        ctx.oracle_fail("publish-success-despite-foreign-version", "publish reported success although server %d's answer showed share(s) %r of "
+                                        "another version that this publish was not writing there" % (w.server.i, foreign), case=case)
+                        break
             if not placed <= acked:
                 ctx.oracle_fail("publish-placed-not-acked", "publish recorded shares as placed that no server acknowledged: %r" % sorted(placed - acked), case=case)
         ok_shnums = set(w.shnum for w, a in answers if a[0] != "err")
